@@ -14,7 +14,8 @@ from harness import c19_targets as TG
 ENC = ["asynq/mock_.py: patch, patch.object, _make_patch_async, _PatchAsync.__enter__/copy, _AsynqWrapper, "
        "_AsyncioWrapper, _maybe_wrap_new", "unittest.mock._patch (executed as shipped)"]
 TARGETS = ["module function", "instance method", "classmethod", "staticmethod", "plain attribute"]
-REPL = ["default mock", "plain function", "bound method", "callable object", "new_callable", "non-callable"]
+REPL = ["default mock", "plain function", "bound method", "callable object", "new_callable", "non-callable",
+        "staticmethod/classmethod object", "new_callable producing a non-callable"]
 ACT = ["with", "decorator", "start/stop", "start/stopall", "with (patch by dotted name)"]
 
 
@@ -66,6 +67,12 @@ def make_repl(rk, tag, rv):
         return {"new": h}, "callable", h
     if rk == 4:
         return {"new_callable": lambda: Helper(tag)}, "callable", None
+    if rk == 6:
+        def sfn(*a, **k):
+            return ("plain", tag) + tuple(a) + tuple(sorted(k.items()))
+        return {"new": staticmethod(sfn)}, "plain", sfn
+    if rk == 7:
+        return {"new_callable": lambda: 12345}, "noncallable", None
     return {"new": 12345 + 0 * rv}, "noncallable", None
 
 
@@ -73,6 +80,8 @@ def f_patch(tk, rk, act, exc, nest, x, rv):
     t, r, a = conc(tk, len(TARGETS)), conc(rk, len(REPL)), conc(act, len(ACT))
     ex, ns = concb(exc), conc(nest, 3)
     rec.clear_fail()
+    if r == 6 and t != 3:
+        return True         # a staticmethod object is a replacement for a static method
     prog.reset_globals()
     logging.disable(logging.CRITICAL)
     owner, attr, dotted, get_user, get_raw = target_ref(t)
@@ -89,10 +98,10 @@ def f_patch(tk, rk, act, exc, nest, x, rv):
 
         def inside(tag, m):
             """exercise all four conventions; returns problem string or None"""
-            if t == 4 or r == 5:
+            if t == 4 or r in (5, 7):
                 # plain attribute / non-callable replacement is installed as is
                 cur = getattr(owner, attr)
-                if r == 5 and cur != 12345:
+                if r in (5, 7) and cur != 12345:
                     return "non-callable replacement not installed as is (%r)" % (cur,)
                 if r == 0 and not isinstance(cur, umock.NonCallableMock):
                     return "default mock not installed (%r)" % (cur,)
@@ -159,7 +168,7 @@ def f_patch(tk, rk, act, exc, nest, x, rv):
                 with p as m:
                     body(m)
             elif a == 1:
-                if r == 0 or r == 4:
+                if r in (0, 4, 7):
                     @p
                     def decorated(m):
                         body(m)
